@@ -27,14 +27,20 @@ THEOREMS = [
     "c03_success_implies_handed",
     "c03_stalled_writer_never_success",
     "c03_handed_only_on_success",
+    "c03_refusing_writer_never_success",
+    "c03_sequence_each_call_fresh",
     "c03_default_list",
 ]
 RULE = (
     "product of non-empty ordered supported lists of length<=3 over {3 real, 3 invented versions} (plus the caller passing no list) x "
     "preferred in {each universe member, absent, a version in no list, ''} x answers {each universe member, an outside version, '', a "
     "whitespace twin, 14 malformed result shapes, JSON-RPC errors of every named code of types/errors.py + samples x messages with and "
-    "without the words 'protocol version', silence}; quick: all version answers + silence for every (list, preferred) and a seeded "
-    "rotation of malformed/error answers, thorough: the full product; real send_initialize(_with_client_tracking) under the "
+    "without the words 'protocol version', silence}; quick: all version answers + silence for every (list, preferred) over all lists of length<=2 and "
+    "68 seeded lists of length 3, with a seeded rotation of malformed/error answers, thorough: the full product; a hardening block "
+    "(falsy / twin / source-constant / format-hostile versions and error texts, falsy results and error data, peers that close either "
+    "direction, duplicate answers, 1..300 foreign messages of 8 kinds before the answer, timeouts 0/1/2 ticks and answers one tick "
+    "around every poll boundary and the deadline, 3 tie orders, tracking entry point without client / with a hook-less client); "
+    "sequences of 2-3 calls on the same streams and tracked client; real send_initialize(_with_client_tracking) under the "
     "virtual-time loop vs clientInit/trackedInit; slow-writer: the same call with a write stream of buffer 0 / 1 (full or empty) "
     "whose reader takes the notification 1, T-1, T, T+1, 2T ticks after answering or never, vs clientInitW; non-trivial = distinct (list, preferred, answer, tracking)"
 )
@@ -50,6 +56,10 @@ ASSUMPTIONS = [
 ]
 
 PREFS = [None] + V.UNIVERSE + [V.OUTSIDE, ""]
+TIES = ("events", "timers", "io")
+AT_CHOICES = (1, 10, 511, 512, 513, 700, 1024, 2047)  # 512 / 1024: poll boundaries of _await_response; 2047: one tick before the deadline
+RESULT_VARIANTS_CHEAP = ("extra", "falsy-members", "version-last", "hostile-members")
+DEFAULT_D = 61440  # 60 s
 VERSION_ANSWERS = V.UNIVERSE + [V.OUTSIDE, "", "2025-06-18 "]
 
 
@@ -62,14 +72,30 @@ def all_lists(maxlen=3, repetition=True):
 
 
 def rpc_answers(full):
-    codes = V.named_error_codes()
+    """JSON-RPC error answers: every named code + samples + the integer constants of the anchored source (both signs) x messages
+    with/without the words 'protocol version', falsy and format-hostile messages, falsy `data` members."""
+    from chuk_mcp.protocol.types import errors as E
+
+    strs, ints = V.harvest_constants()
+    codes = list(dict.fromkeys(V.named_error_codes() + ints))
+    library_texts = [m for m in getattr(E, "ERROR_MESSAGES", {}).values() if isinstance(m, str)]
     out = []
     for c in codes:
-        for m in (V.ERROR_MESSAGES if (full and c == -32602) else V.ERROR_MESSAGES[:3]):
+        for m in V.ERROR_MESSAGES[:3]:
             out.append({"k": "rpc", "code": c, "msg": m})
-    if not full:
-        out += [{"k": "rpc", "code": -32602, "msg": m} for m in V.ERROR_MESSAGES[3:]]
-    return out
+    for c in (-32602, -32008, 0):  # the code the client looks at, the library's own version-mismatch code, a falsy code
+        for m in V.ERROR_MESSAGES[3:] + library_texts + V.HOSTILE_TEXT + [t for t in strs if "ersion" in t]:
+            out.append({"k": "rpc", "code": c, "msg": m})
+    for d in (0, "", [], {}, False, None, 0.0, {"protocol version": "x"}, "protocol version"):
+        out.append({"k": "rpc", "code": -32602, "msg": "boom", "data": d})
+        out.append({"k": "rpc", "code": -32602, "msg": "Unsupported protocol version", "data": d})
+    seen, uniq = set(), []
+    for a in out:
+        key = canon(a)
+        if key not in seen:
+            seen.add(key)
+            uniq.append(a)
+    return uniq
 
 
 def answer_version_string(ans):
@@ -95,10 +121,10 @@ class ClientInit(Suite):
             short = [l for l in all_lists(2)]
             l3 = [l for l in all_lists(3, repetition=False) if len(l) == 3]
             rep3 = [l for l in all_lists(3) if len(l) == 3 and len(set(l)) < 3]
-            lists = short + l3 + rng.sample(rep3, 24)
+            lists = short + rng.sample(l3, 60) + rng.sample(rep3, 8)
             ctx.exhaustive_parts.append(
-                "client-init: every list of length<=2 (with repetition) and every repetition-free list of length 3 over the 6-version "
-                "universe x 9 preferred x {9 version answers, silence}")
+                "client-init: every list of length<=2 (with repetition) over the 6-version universe (+ 68 seeded lists of length 3) "
+                "x 9 preferred x {9 version answers, silence}")
         else:
             lists = list(all_lists(3))
             ctx.exhaustive_parts.append(
@@ -111,39 +137,131 @@ class ClientInit(Suite):
                 answers = list(versions) + [{"k": "silence"}]
                 if budget == "quick" and sup is not None:
                     answers += rng.sample(malformed, 2) + rng.sample(rpcs, 3)
-                else:
+                elif sup is None or len(sup) == 1:
                     answers += malformed + rpcs
+                else:
+                    answers += malformed + rng.sample(rpcs, 60)
                 for ans in answers:
                     k += 1
                     a = dict(ans)
-                    if a["k"] == "version" and k % 5 == 0:
-                        a["extra"] = True
+                    if a["k"] == "version" and k % 3 == 0:
+                        a["extra"] = RESULT_VARIANTS_CHEAP[(k // 3) % len(RESULT_VARIANTS_CHEAP)]
                     c = {"sup": sup, "pref": pref, "ans": a, "D": 2048,
-                         "at": (1, 10, 512, 700)[k % 4], "tie": ("events", "timers", "io")[(k // 4) % 3],
+                         "at": AT_CHOICES[k % len(AT_CHOICES)], "tie": TIES[(k // 4) % 3],
                          "track": k % 2 == 0}
+                    if k % 17 == 0:
+                        c["track"] = ("none", "bare")[(k // 17) % 2]  # tracking entry point without / with a hook-less client
                     if sup is None and ans["k"] in ("silence", "version") and pref in (None, "2024-11-05"):
                         c["D"] = None  # the default 60 s timeout: free under virtual time
                     out.append(c)
                     # success cases: both entry points
                     eff = sup if sup is not None else V.server_supported()
-                    if ans["k"] == "version" and ans["s"] in eff:
+                    if ans["k"] == "version" and ans["s"] in eff and c["track"] in (True, False):
                         out.append(dict(c, track=not c["track"]))
+        return out + self.extras(rng, budget)
+
+    def extras(self, rng, budget):
+        """Hardening sweep: falsy / twin / magic / format-hostile values, limits, rarely taken branches, unusual but valid peers,
+        arrivals on every timer boundary — on a small set of lists, each dimension varied against a fixed rest."""
+        strs, _ints = V.harvest_constants()
+        quick = budget == "quick"
+        lists = [None, ["2025-06-18"], ["2024-11-05", "2025-06-18"], ["unknown"], ["unknown", "2025-06-18"],
+                 ["2025-06-17", "2025-06-19"], ["initialize", "protocolVersion", "protocol version"], ["2025-07-01", "None"]]
+        if quick:
+            lists = [None, ["2024-11-05", "2025-06-18"], ["unknown", "2025-06-18"], ["initialize", "protocolVersion", "protocol version"]]
+        twins = ["2025-06-18\n", "2025-6-18", "２０２５-０６-１８", "2025-06-18\x00", " 2025-06-18", "2025-06-18\u2028", "2025-06-18\r",
+                 "2025-06-18.0", "20250618", "True", "0", "false", "null", "None", "[]", "{}"]
+        magic = list(strs) if not quick else rng.sample(strs, min(30, len(strs)))
+        malformed = [{"k": "malformed", "shape": sh} for sh in V.MALFORMED]
+        rpcs = rpc_answers(full=True)
+        out = []
+        k = 0
+
+        def add(sup, pref, ans, **kw):
+            nonlocal k
+            k += 1
+            c = {"sup": sup, "pref": pref, "ans": dict(ans), "D": 2048, "at": AT_CHOICES[k % len(AT_CHOICES)],
+                 "tie": TIES[k % 3], "track": (True, False, True, False, "none", "bare")[k % 6]}
+            c.update(kw)
+            out.append(c)
+
+        for sup in lists:
+            eff = sup if sup is not None else V.server_supported()
+            prefs = list(dict.fromkeys([None, eff[-1], ""] + ([] if quick else [V.OUTSIDE])))
+            for pref in prefs:
+                good = {"k": "version", "s": eff[-1]}
+                foreign = {"k": "version", "s": "2031-01-01"}
+                # every member of the list answered in every well-formed dressing; both tracked and not
+                for v in eff:
+                    for variant in V.RESULT_VARIANTS:
+                        if variant == "long-instructions" and (quick and pref is not None):
+                            continue
+                        add(sup, pref, {"k": "version", "s": v, "extra": variant}, track=True)
+                        add(sup, pref, {"k": "version", "s": v, "extra": variant}, track=False)
+                # foreign answers: twins of listed versions, constants of the source, format-hostile text, falsy
+                for v in twins + magic + V.HOSTILE_TEXT:
+                    if quick and len(v) > 1000 and pref is not None:
+                        continue
+                    if v not in eff:
+                        add(sup, pref, {"k": "version", "s": v, "extra": RESULT_VARIANTS_CHEAP[k % len(RESULT_VARIANTS_CHEAP)]})
+                for a in malformed:
+                    add(sup, pref, a)
+                for a in (rpcs if (not quick or (pref is None and sup is None)) else rng.sample(rpcs, 40)):
+                    add(sup, pref, a)
+                # peers that close: the read side without answering / right after answering; the write side after answering
+                add(sup, pref, {"k": "closed"})
+                add(sup, pref, {"k": "closed"}, noise=[["notif", 2]])
+                for a in (good, foreign, {"k": "rpc", "code": -32603, "msg": "boom"}):
+                    add(sup, pref, a, close_read=True)
+                    add(sup, pref, a, dup=True)
+                    add(sup, pref, a, wbuf=0, take="refuses")
+                # foreign traffic before the answer, up to and beyond the 100-slot buffers the transports use
+                for kind in V.NOISE_KINDS:
+                    for n in ((1, 100) if quick and pref is not None else ((1, 2, 99, 100, 101) if quick else (1, 2, 99, 100, 101, 300))):
+                        for a in (good, foreign, {"k": "silence"}):
+                            if quick and n > 1 and a is not good:
+                                continue
+                            add(sup, pref, a, noise=[[kind, n]], D=512, at=(1, 10, 100, 511)[k % 4])
+                add(sup, pref, good, noise=[[kd, 1] for kd in V.NOISE_KINDS])
+                # timeouts: zero / tiny / the answer one tick before and after the deadline and on every poll boundary
+                for D, ats in ((0, (1, 10)), (1, (2, 10)), (2, (1, 3)), (512, (511, 513)), (513, (512, 514)), (1024, (1023, 1025)),
+                               (2048, (511, 512, 513, 1023, 1024, 1025, 1536, 2047, 2049))):
+                    for at in ats:
+                        for tie in TIES:
+                            for a in (good, foreign):
+                                add(sup, pref, a, D=D, at=at, tie=tie)
+                if sup is None and pref is None:
+                    for at in (1, 512, 61439, 61441):  # the default 60 s timeout
+                        for tie in TIES:
+                            add(sup, pref, good, D=None, at=at, tie=tie)
         return out
 
     def impl_batch(self, cases):
         return V.run_client(cases)
 
-    def model_line(self, case):
+    @staticmethod
+    def model_answer(case):
         a = case["ans"]
+        D = case.get("D")
+        D = DEFAULT_D if D is None else D
+        if a["k"] not in ("silence",) and case.get("at", 10) > D:
+            return {"k": "silence"}  # whatever arrives after the deadline is not an answer
         if a["k"] == "version":
-            ans = {"k": "version", "s": a["s"]}
-        elif a["k"] == "malformed":
-            ans = {"k": "malformed"}
-        elif a["k"] == "rpc":
-            ans = {"k": "rpc", "code": a["code"], "msg": a.get("msg")}
-        else:
-            ans = {"k": "silence"}
-        return {"m": "version", "op": "client", "sup": case["sup"], "pref": case["pref"], "ans": ans}
+            return {"k": "version", "s": a["s"]}
+        if a["k"] == "malformed":
+            return {"k": "malformed"}
+        if a["k"] == "rpc":
+            return {"k": "rpc", "code": a["code"], "msg": a.get("msg")}
+        return {"k": a["k"]}
+
+    def model_line(self, case):
+        D = case.get("D")
+        if case["ans"]["k"] != "silence" and case.get("at", 10) == (DEFAULT_D if D is None else D):
+            return None  # an answer at the very instant of the deadline may go either way (C01): oracle only
+        if case.get("take") == "refuses":
+            return {"m": "version", "op": "clientw", "sup": case["sup"], "pref": case["pref"], "ans": self.model_answer(case),
+                    "take": "refuses"}
+        return {"m": "version", "op": "client", "sup": case["sup"], "pref": case["pref"], "ans": self.model_answer(case)}
 
     def compare(self, case, o, m):
         if o.get("harness"):
@@ -156,7 +274,7 @@ class ClientInit(Suite):
             return "error code differs"
         if canon(o["trace"]) != canon(m["trace"]):
             return "transcript differs"
-        if case.get("track") and canon(o.get("tracked")) != canon(m.get("tracked")):
+        if case.get("track") is True and "tracked" in m and canon(o.get("tracked")) != canon(m.get("tracked")):
             return "tracked batching state differs"
         return None
 
@@ -189,10 +307,10 @@ class ClientInit(Suite):
                 side = ""
                 if "wbuf" in case:
                     side = (f" (write stream of buffer size {case['wbuf']}{' holding a foreign message' if case.get('filler') else ''}; the peer "
-                            f"takes the notification {'never' if case.get('take') is None else str(case['take']) + ' ticks after answering'}; "
+                            f"{'never takes the notification' if case.get('take') is None else ('closes that direction after answering' if case.get('take') == 'refuses' else 'takes the notification ' + str(case['take']) + ' ticks after answering')}; "
                             f"timeout {case['D']} ticks): what reached the write side is")
                 return ("initialized-not-exactly-once", f"successful initialization{side} with transcript {canon(trace)}", {"trace": want})
-            if case.get("track"):
+            if case.get("track") is True:
                 wt = {"v": v, "batching": V.real_supports_batching(v)}
                 b = o.get("batch") or {}
                 got = (o.get("tracked") or {}).get("batching")  # the mode is what the property names
@@ -206,7 +324,8 @@ class ClientInit(Suite):
         if n_initd:
             return ("initialized-after-failure", f"answer {canon(ans)} ended in {o['outcome']} but the initialized notification was "
                     f"written ({canon(trace)})", {"initialized": 0})
-        if ans["k"] == "version" and ans["s"] not in sup and o["outcome"] != "mismatch":
+        D = DEFAULT_D if case.get("D") is None else case["D"]
+        if ans["k"] == "version" and ans["s"] not in sup and o["outcome"] != "mismatch" and case.get("at", 10) < D:
             return ("foreign-version-not-mismatch", f"supported {sup}: answered version {ans['s']!r} ended in {o['outcome']} "
                     f"{o.get('exc', '')}", {"outcome": "mismatch"})
         return None
@@ -217,7 +336,38 @@ class ClientInit(Suite):
         if a["k"] == "version":
             sup = case["sup"] if case["sup"] is not None else V.server_supported()
             sub = "version-in-list" if a["s"] in sup else "version-foreign"
-        return f"{sub}/{o.get('outcome')}/{'tracked' if case.get('track') else 'plain'}"
+        return f"{sub}/{o.get('outcome')}/{self.entry(case)}{self.scenario(case)}"
+
+    @staticmethod
+    def entry(case):
+        t = case.get("track")
+        return {True: "tracked", False: "plain", None: "plain", "none": "tracking-entry-without-client",
+                "bare": "tracking-entry-hookless-client"}[t]
+
+    @staticmethod
+    def scenario(case):
+        """which rarely taken branch / unusual peer behaviour the case exercises (evidence distribution)"""
+        tags = []
+        for kind, n in case.get("noise") or []:
+            tags.append(f"noise:{kind}x{n if n in (1, 2) else ('<=100' if n <= 100 else '>100')}")
+        for f in ("dup", "close_read"):
+            if case.get(f):
+                tags.append(f)
+        if case.get("take") == "refuses":
+            tags.append("write-side-closed")
+        D = case.get("D")
+        if D is None:
+            tags.append("default-timeout")
+        elif D <= 2:
+            tags.append(f"timeout-{D}-ticks")
+        if D is not None and case.get("at", 10) > D and case["ans"]["k"] != "silence":
+            tags.append("answer-after-deadline")
+        x = case["ans"].get("extra")
+        if x and x is not True and x != "extra":
+            tags.append("result:" + x)
+        if "data" in case["ans"]:
+            tags.append("error-data")
+        return ("/" + "+".join(tags[:2])) if tags else ""
 
     def shrink_candidates(self, case):
         sup = case["sup"]
@@ -228,6 +378,9 @@ class ClientInit(Suite):
             yield dict(case, pref=None)
         if case.get("track"):
             yield dict(case, track=False)
+        for f in ("noise", "dup", "close_read", "prefill"):
+            if case.get(f):
+                yield {k: v for k, v in case.items() if k != f}
         a = case["ans"]
         if a.get("extra"):
             yield dict(case, ans={k: v for k, v in a.items() if k != "extra"})
@@ -247,7 +400,10 @@ class BatchingGuard(Suite):
     name = "batching-mode"
 
     def cases(self, ctx, budget):
-        vs = list(VERSION_ANSWERS) + V.server_supported()
+        vs = list(VERSION_ANSWERS) + V.server_supported() + ["unknown", "None", "initialize", "protocolVersion", "protocol version",
+                                                             "2025-06-17", "2025-06-19", "2025-07-01", "2025-06", "a-b-c", "2025-06-",
+                                                             "-", "--", "2025--18", "0-0-0", "0000-00-00", "9999-99-99", "10000-01-01",
+                                                             "2025-6-18", "2025-06-018", " 2025-06-18", "2025-06-18\n", "%s-%d-{}"]
         for y in (1999, 2024, 2025, 2026):
             for m in range(1, 13):
                 for d in (1, 17, 18, 19, 28):
@@ -261,7 +417,19 @@ class BatchingGuard(Suite):
         return {"m": "version", "op": "batching", "v": case["v"]}
 
     def kind(self, case, o):
-        return "batching-mode/" + ("on" if o["batching"] else "off")
+        v = case["v"]
+        parts = v.split("-")
+        if not v:
+            br = "falsy-version"
+        elif len(parts) != 3:
+            br = "not-three-parts"
+        else:
+            try:
+                y, m, d = (int(p) for p in parts)
+                br = "year>2025" if y > 2025 else ("month>6" if (y == 2025 and m > 6) else ("day>=18" if (y == 2025 and m == 6 and d >= 18) else "earlier"))
+            except ValueError:
+                br = "int()-fails"
+        return "batching-mode/" + br + "/" + ("on" if o["batching"] else "off")
 
 
 class SlowWriter(ClientInit):
@@ -276,7 +444,10 @@ class SlowWriter(ClientInit):
         rng = ctx.sub_rng("c03-slow", budget)
         T = 256
         takes = [1, T - 1, T, T + 1, 2 * T, None]
-        sides = [{"wbuf": 0, "filler": False}, {"wbuf": 1, "filler": True}, {"wbuf": 1, "filler": False}]
+        sides = [{"wbuf": 0, "filler": 0}, {"wbuf": 1, "filler": 1}, {"wbuf": 1, "filler": 0},
+                 {"wbuf": 1, "filler": 1, "prefill": 1},  # the buffer is already full when the call starts: the request waits too
+                 {"wbuf": 100, "filler": 99}, {"wbuf": 100, "filler": 100}, {"wbuf": 100, "filler": 100, "prefill": 100}]
+        takes = takes + ["refuses"]
         lists = [None, ["2025-06-18", "1999-12-31"], ["2024-11-05"], ["draft-7", "2025-03-26", "2025-06-18"]]
         if budget != "quick":
             lists += [l for l in all_lists(2)]
@@ -295,18 +466,22 @@ class SlowWriter(ClientInit):
                             c = {"sup": sup, "pref": pref, "ans": dict(ans), "D": T, "at": (1, 10, 100)[k % 3],
                                  "tie": ("events", "timers", "io")[(k // 3) % 3], "track": k % 2 == 0, "take": take}
                             c.update(side)
+                            if budget == "quick" and side["wbuf"] == 100 and (k % 4) and ans["k"] != "version":
+                                continue
                             out.append(c)
                             if ans["k"] == "version" and ans["s"] in eff and take in (T, T + 1, None):
                                 out.append(dict(c, tie=("timers", "io", "events")[(k // 3) % 3], track=not c["track"]))
         ctx.exhaustive_parts.append(
-            "slow-writer: write stream buffer 0 / 1+foreign message / 1 empty x peer taking the notification 1, T-1, T, T+1, 2T ticks "
-            "after its answer or never x both orders at equal instants")
+            "slow-writer: write stream buffer 0 / 1 full / 1 empty / 1 full from the start / 100 with 99 and 100 foreign messages x peer "
+            "taking the notification 1, T-1, T, T+1, 2T ticks after its answer, never, or closing that direction x 3 orders at equal instants")
         return out
 
     @staticmethod
     def write_side(case):
         """the model's WriteSide: an empty buffer of size >=1 takes the notification at once"""
-        if case.get("wbuf") is None or (case["wbuf"] >= 1 and not case.get("filler")):
+        if case.get("take") == "refuses":
+            return "refuses"
+        if case.get("wbuf") is None or int(case.get("filler") or 0) < case["wbuf"]:
             return 0
         return case.get("take")
 
@@ -319,7 +494,8 @@ class SlowWriter(ClientInit):
     def compare(self, case, o, m):
         if o.get("harness"):
             return None
-        slow = self.write_side(case) is None or self.write_side(case) >= case["D"] - 1
+        ws = self.write_side(case)
+        slow = ws is None or (isinstance(ws, int) and ws >= case["D"] - 1)
         if slow and m["outcome"] in ("ok", "blocked") and o["outcome"] not in ("ok", "blocked"):
             # the model is the code's unbounded blocking send.  Giving up LOUDLY on a stalled writer (an
             # exception, nothing handed over) is equally within the property: not a divergence.
@@ -333,17 +509,120 @@ class SlowWriter(ClientInit):
         return None
 
     def kind(self, case, o):
-        side = "buf%s%s" % (case.get("wbuf"), "+full" if case.get("filler") else "")
+        side = "buf%s%s%s" % (case.get("wbuf"), "+%d-foreign" % case["filler"] if case.get("filler") else "",
+                              "+prefilled" if case.get("prefill") else "")
         take = case.get("take")
-        rel = "never" if take is None else ("prompt" if take < case["D"] - 1 else "around-or-after-timeout")
+        rel = "never" if take is None else ("refuses" if take == "refuses" else ("prompt" if take < case["D"] - 1 else "around-or-after-timeout"))
         return f"slow-writer/{side}/{rel}/{case['ans']['k']}/{o.get('outcome')}"
 
     def shrink_candidates(self, case):
         for c in super().shrink_candidates(case):
             yield c
         if case.get("filler"):
-            yield dict(case, wbuf=0, filler=False)
+            yield dict({k: v for k, v in case.items() if k != "prefill"}, wbuf=0, filler=0)
+
+
+class ClientSequence(ClientInit):
+    """2-3 consecutive calls on the SAME streams with the SAME tracked client (and the same list object): a retry after a
+    failure, a re-initialization after a success, with leftovers of the earlier attempt (late answer, duplicate answer)
+    still in the read stream.  Every call must behave as a fresh negotiation; the tracked mode follows the last success."""
+
+    name = "client-sequence"
+
+    def cases(self, ctx, budget):
+        rng = ctx.sub_rng("c03-seq", budget)
+        L1 = ["2025-06-18", "2025-03-26", "2024-11-05"]
+        L2 = ["2024-11-05", "1999-12-31"]
+
+        def steps_for(sup):
+            a, b = sup[0], sup[-1]
+            return [
+                {"ans": {"k": "version", "s": a}}, {"ans": {"k": "version", "s": b}},
+                {"ans": {"k": "version", "s": b}, "dup": True},
+                {"ans": {"k": "version", "s": "2031-01-01"}},
+                {"ans": {"k": "version", "s": "2031-01-01"}, "noise": [["resp-prev-id", 1], ["resp-other-id", 1]]},
+                {"ans": {"k": "version", "s": a}, "noise": [["resp-prev-id", 1]]},
+                {"ans": {"k": "silence"}, "D": 64},
+                {"ans": {"k": "silence"}, "D": 64, "noise": [["resp-prev-id", 1], ["req-same-id", 1]]},
+                {"ans": {"k": "version", "s": a}, "D": 64, "at": 65},  # the answer comes one tick too late: it is left in the stream
+                {"ans": {"k": "rpc", "code": -32602, "msg": "Unsupported protocol version"}},
+                {"ans": {"k": "rpc", "code": -32603, "msg": ""}},
+                {"ans": {"k": "malformed", "shape": "version-zero"}},
+            ]
+
+        out = []
+        k = 0
+        for sups in ((L1, L1), (L2, L2), (L1, L2), (L2, L1), (None, None)):
+            pools = [steps_for(s if s is not None else V.server_supported()) for s in sups]
+            for prefs in ((None, None), ("2024-11-05", None), (None, "2024-11-05")):
+                for x in pools[0]:
+                    for y in pools[1]:
+                        k += 1
+                        st = [dict(x, sup=sups[0], pref=prefs[0]), dict(y, sup=sups[1], pref=prefs[1])]
+                        for i, stp in enumerate(st):
+                            stp.setdefault("D", 2048)
+                            stp.setdefault("at", (1, 10, 512)[(k + i) % 3])
+                            stp["tie"] = TIES[(k + i) % 3]
+                        out.append({"steps": st, "share_list": True})
+        pool = steps_for(L1)
+        triples = [(x, y, z) for x in pool for y in pool for z in pool]
+        for x, y, z in (rng.sample(triples, 300) if budget == "quick" else triples):
+            k += 1
+            st = [dict(s_, sup=L1, pref=None) for s_ in (x, y, z)]
+            for i, stp in enumerate(st):
+                stp.setdefault("D", 2048)
+                stp.setdefault("at", 10)
+                stp["tie"] = TIES[(k + i) % 3]
+            out.append({"steps": st, "share_list": True})
+        ctx.exhaustive_parts.append(
+            "client-sequence: every ordered pair of 12 step kinds (two listed versions, duplicate answer, foreign version, late answer of the "
+            "previous attempt, silence, answer one tick late, errors, malformed) x 5 list pairings x 3 preferred pairings on one pair of "
+            "streams and one tracked client")
+        return out
+
+    def impl_batch(self, cases):
+        return V.run_client_seq(cases)
+
+    def model_line(self, case):
+        return {"m": "version", "op": "clientseq",
+                "steps": [{"sup": st["sup"], "pref": st["pref"], "ans": self.model_answer(st)} for st in case["steps"]]}
+
+    def compare(self, case, o, m):
+        for st, so, sm in zip(case["steps"], o["steps"], m["steps"]):
+            d = ClientInit.compare(self, dict(st, track=True), so, sm)
+            if d:
+                return d
+            if so.get("sup_after") is not None:
+                return "the caller's list object was modified"
+        return None
+
+    def oracle(self, case, o):
+        for i, (st, so) in enumerate(zip(case["steps"], o["steps"])):
+            # the list as the caller handed it to THIS call
+            cur = dict(st, track=True)
+            v = ClientInit.oracle(self, cur, so)
+            if v is not None:
+                key, what, exp = v
+                if i > 0:
+                    key += "-in-sequence"
+                    what = (f"call no. {i + 1} on the same streams and tracked client (earlier calls: "
+                            f"{', '.join(canon(s['ans']) + ' -> ' + str(p.get('outcome')) for s, p in zip(case['steps'][:i], o['steps'][:i]))}): " + what)
+                return (key, what, exp)
+        return None
+
+    def kind(self, case, o):
+        return "sequence/" + ">".join(str(s.get("outcome")) for s in o["steps"])
+
+    def shrink_candidates(self, case):
+        st = case["steps"]
+        if len(st) > 1:
+            for i in range(len(st)):
+                yield dict(case, steps=st[:i] + st[i + 1:])
+        for i, s_ in enumerate(st):
+            for f in ("noise", "dup"):
+                if s_.get(f):
+                    yield dict(case, steps=st[:i] + [{k: v for k, v in s_.items() if k != f}] + st[i + 1:])
 
 
 def suites():
-    return [ClientInit(), SlowWriter(), BatchingGuard()]
+    return [ClientInit(), SlowWriter(), ClientSequence(), BatchingGuard()]
